@@ -540,3 +540,22 @@ class World:
 
     def m_put_validator_count(self, ctx, a, comp):
         return self.putter(ctx, 'validator_count', [], ctx.args[1])
+
+
+def _install_extra(cls):
+    def m_get_block_fees(self, ctx, a, comp):
+        st = ctx.st
+        m = M.new_map('HashMap<IbcPrefixed, u128>', [(asset, amt) for asset, amt, *_ in st.world['block_fees']])
+        st.log.append(('read', 'block_fees', None))
+        return [(None, m)]
+
+    def m_clear_block_validator_updates(self, ctx, a, comp):
+        st = ctx.st
+        st.world['validator_updates'] = []
+        st.log.append(('write', 'validator_updates', None, None, False, self.state_token(st, ctx.args[0])))
+        return [(None, ())]
+    cls.m_get_block_fees = m_get_block_fees
+    cls.m_clear_block_validator_updates = m_clear_block_validator_updates
+
+
+_install_extra(World)
